@@ -9,9 +9,11 @@ namespace Martian.Drv.C11
 open Martian Martian.Grpc
 
 structure St where
-  stream : Stream := {}
-  deadC : Bool := false
-  deadS : Bool := false
+  /-- stream id ↦ state of that stream (one factory value per case, one factory call per stream id) -/
+  streams : List (Nat × Stream) := []
+  /-- the stream selected by the `@<id>` prefix of the current op (default 1) -/
+  cur : Nat := 1
+  dead : List (Nat × Dir) := []
   decT : List (Enc × Bytes × Option Bytes) := []
   cmpT : List (Enc × Bytes × Bytes) := []
 
@@ -87,24 +89,24 @@ def parseHdr (s : String) : Option Header :=
 def parseHdrs (s : String) : Option (List Header) :=
   if s = "-" then some [] else (s.splitOn ",").mapM parseHdr
 
-def St.dead (s : St) : Dir → Bool
-  | .c2s => s.deadC
-  | .s2c => s.deadS
+def St.stream (s : St) : Stream := (s.streams.lookup s.cur).getD {}
 
-def St.kill (s : St) : Dir → St
-  | .c2s => { s with deadC := true }
-  | .s2c => { s with deadS := true }
+def St.setStream (s : St) (st : Stream) : St := { s with streams := (s.cur, st) :: s.streams.filter (·.1 != s.cur) }
+
+def St.isDead (s : St) (d : Dir) : Bool := s.dead.contains (s.cur, d)
+
+def St.kill (s : St) (d : Dir) : St := { s with dead := (s.cur, d) :: s.dead }
 
 def dataOp (s : St) (d : Dir) (b : Bytes) (es : Bool) : St × String :=
-  if s.dead d then (s, "out-of-model") else
+  if s.isDead d then (s, "out-of-model") else
   let r0 := Stream.data (codec s false) s.stream d b es
   let r1 := Stream.data (codec s true) s.stream d b es
   if r0 != r1 then (s.kill d, "out-of-model")
   else match r0.1 with
-    | some st => ({ s with stream := st }, showEvs r0.2)
+    | some st => (s.setStream st, showEvs r0.2)
     | none => (s.kill d, showEvs r0.2)
 
-def step (s : St) (toks : List String) : St × String :=
+def stepOn (s : St) (toks : List String) : St × String :=
   match toks with
   | ["dec", e, w, p] =>
     match parseEnc e, unhex w, (if p = "!" then some none else (unhex p).map some) with
@@ -117,9 +119,9 @@ def step (s : St) (toks : List String) : St × String :=
   | ["hdr", d, es, hs] =>
     match parseDir d, parseBool es, parseHdrs hs with
     | some d, some es, some hs =>
-      if s.dead d then (s, "out-of-model") else
+      if s.isDead d then (s, "out-of-model") else
       let (st, evs) := s.stream.header d hs es
-      let s' := { s with stream := st }
+      let s' := s.setStream st
       (if evs.any (fun e => match e with | .error _ => true | _ => false) then s'.kill d else s', showEvs evs)
     | _, _, _ => (s, "bad-op")
   | ["data", d, es, b] =>
@@ -144,5 +146,16 @@ def step (s : St) (toks : List String) : St × String :=
     | some _, some id, some hs => (s, showEvs [.sinkPush id hs])
     | _, _, _ => (s, "bad-op")
   | _ => (s, "bad-op")
+
+/-- an op may start with `@<stream id>`; without it the op is on stream 1 -/
+def step (s : St) (toks : List String) : St × String :=
+  match toks with
+  | t :: rest =>
+    if t.startsWith "@" then
+      match (t.drop 1).toNat? with
+      | some sid => stepOn { s with cur := sid } rest
+      | none => (s, "bad-op")
+    else stepOn { s with cur := 1 } toks
+  | [] => (s, "bad-op")
 
 end Martian.Drv.C11
